@@ -442,29 +442,29 @@ impl Clone for TransitionCycle {
         r.cyc(new_cycle_idx as int) == self.cyc(new_cycle_idx as int).push(vehicle), // @obl C15.add_vehicle_at_the_end.cycle
         forall|i: int| 0 <= i < self.n() && i != new_cycle_idx ==> #[trigger] r.cyc(i) == self.cyc(i),
         r.total_len() == self.total_len() + 1,
-//@closure 0
+//@closure unwrap_or_else#0
     -> (q: &Tour) requires old_tours@.contains_key(vehicle) ensures *q == old_tours@[vehicle]
-//@closure-params 1
+//@closure-params? retain#0
     &CycleIdx
-//@closure 1
+//@closure? retain#0
     -> (b: bool) ensures b == (*p0 != new_cycle_idx)
-//@closure-params 2
+//@closure-params map#0
     &VehicleIdx
-//@closure 2
+//@closure map#0
     -> (d: NodeIdx)
     requires eff_tours(updated_tours@, old_tours@).contains_key(*p0), eff_tours(updated_tours@, old_tours@)[*p0].wf(),
         !eff_tours(updated_tours@, old_tours@)[*p0].is_dummy,
     ensures d == sp_end_depot(&eff_tours(updated_tours@, old_tours@)[*p0])
-//@closure 3
+//@closure unwrap_or_else#1
     -> (q: &Tour) requires old_tours@.contains_key(v) ensures *q == old_tours@[v]
-//@closure-params 4
+//@closure-params map#1
     &VehicleIdx
-//@closure 4
+//@closure map#1
     -> (d: NodeIdx)
     requires eff_tours(updated_tours@, old_tours@).contains_key(*p0), eff_tours(updated_tours@, old_tours@)[*p0].wf(),
         !eff_tours(updated_tours@, old_tours@)[*p0].is_dummy,
     ensures d == sp_start_depot(&eff_tours(updated_tours@, old_tours@)[*p0])
-//@closure 5
+//@closure unwrap_or_else#2
     -> (q: &Tour) requires old_tours@.contains_key(v) ensures *q == old_tours@[v]
 //@before "let old_cycle"
         proof {
@@ -498,7 +498,7 @@ impl Clone for TransitionCycle {
                 lemma_counter_single(network, tours, vehicle);
             }
         }
-//@after "empty_cycles.retain"
+//@before "tour_of_vehicle.maintenance_counter()"
             proof {
                 // the local list no longer contains new_cycle_idx (what the result *should* carry)
                 let e = self.empty_cycles@;
